@@ -22,6 +22,53 @@ KERNELS = ('fkG0', 'fkG0y1y2')
 
 def translate(ctx):
     pc.translated(ctx)
+    # the state-based kernels fkG_num (theorems kG_num_* of Props/C03.lean) are regenerated too
+    from tools.translate import gen_num
+    if not hasattr(ctx, '_num_ir'):
+        ctx._num_ir = gen_num.translate_all()
+
+
+def num_model_arm(ctx, reason):
+    """source as written: do the resultants of fkG_num equal N = A eps + B kappa of the point state?"""
+    from tools.translate import gen_num
+    from tools.props import C08
+    found = False
+    try:
+        ir = getattr(ctx, '_num_ir', None) or gen_num.translate_all()
+    except Exception as e:
+        ctx.log('num translator unusable for the model arm: %s' % e)
+        return False
+    rng = ctx.rng
+    for lean_model, (fns, consts) in ir.items():
+        F = fns.get('fkG_num')
+        if F is None:
+            continue
+        for trial in range(3):
+            # an ABD-structured laminate matrix [[A, B], [B, D]] with symmetric blocks (what the kernels assume: IsABD)
+            sym = lambda: (lambda M_: M_ + M_.T)(np.array([[rng.uniform(-1, 1) for _ in range(3)] for _ in range(3)]))
+            A3, B3, D3 = sym() + 4 * np.eye(3), 0.3 * sym(), sym() + 4 * np.eye(3)
+            Fm = np.block([[A3, B3], [B3, D3]])
+            eps = [rng.uniform(-1, 1) for _ in range(6)]
+            env = dict(a=1.3, b=0.7, r=2.1)
+            for nm, pq in F.lam.items():
+                env[nm] = Fm[pq[0], pq[1]]
+            env.update(dict(zip(('exx', 'eyy', 'gxy', 'kxx', 'kyy', 'kxy'), eps)))
+            for kind, tgt, expr, lineno in F.pdefs:
+                if kind == '=' and tgt in ('Nxx', 'Nyy', 'Nxy'):
+                    row = ('Nxx', 'Nyy', 'Nxy').index(tgt)
+                    got = C08.ev(expr, env)
+                    want = float(Fm[row] @ np.array(eps))
+                    ctx.evaluations += 1
+                    if abs(got - want) > 1e-9 * max(1., abs(want)):
+                        ctx.violation('C03 fails on the source as written: %s_num.fkG_num line %d computes %s = %.9g for a point state '
+                                      'whose A*eps + B*kappa is %.9g (laminate matrix and strains in the replay)'
+                                      % (pc.MODEL_OF[lean_model], lineno, tgt, got, want),
+                                      dict(model=lean_model, kernel='fkG_num', target=tgt, F=Fm.tolist(), strains=eps, broken=reason))
+                        found = True
+                        break
+            if found:
+                break
+    return found
 
 
 def gen(ctx, rng):
@@ -179,6 +226,8 @@ def search(ctx, reason):
                                   dict(model=lean_model, kernel=kname, entry=[ro, co], point=pt, broken=reason))
                     found = True
         if found:
+            return True
+        if num_model_arm(ctx, reason):
             return True
         for t in range(ctx.scale(30, 200)):
             case = gen(ctx, ctx.rng)
